@@ -205,6 +205,98 @@ def check(chk: Check) -> None:
     _r9(chk)
 
 
+_TYPED = ('str', 'list', 'dict', 'bool', 'int', 'tuple', 'set', 'List', 'Dict', 'Tuple', 'Set', 'Iterable', 'Sequence', 'Mapping',
+          'Callable', 'Iterator', 'Collection')
+
+
+def _r12_truth(chk: Check) -> None:
+    """None, 0, "", [] and {} are five different values of the language, and all of them are false.  Outside the constructs whose
+    meaning *is* the truth value (and / or / not / if-else) a decision about a program value is a comparison or an isinstance
+    test; a bare truth test there treats a zero or an empty container like a missing value."""
+    F = chk.facts
+    R12 = chk.rule('C07.R12', 'values are told apart by comparison, not by truthiness: outside and / or / not / if-else no eval method '
+                              'branches on the truth value of a child\'s result, and no table function branches on the truth value of '
+                              'an argument of unknown type (or filters with filter(None, ...))', floor=10)
+    chk.decided += ['no truthiness decisions about program values outside the logical operators (R12)']
+    g = C.grammar(F)
+    lm = C.lexmodel(F)
+    T = C.templates(F)
+    # the class of the conditional expression: built by the production that spells `if` and `else`
+    cond_classes = set()
+    for t in T.all():
+        texts = [next(iter(lm.token_texts.get(s_) or {''})) if lm.token_texts.get(s_) and len(lm.token_texts[s_]) == 1 else (
+            'if' if lm.reserved.get('if') == s_ else 'else' if lm.reserved.get('else') == s_ else None) for s_ in t.prod.rhs]
+        if 'if' in texts and 'else' in texts and isinstance(t.result, tuple) and t.result[:1] == ('new',):
+            cond_classes.add(t.result[1])
+
+    def strip_not(c):
+        c = freeze(c)
+        while isinstance(c, tuple) and c[:1] == ('not',):
+            c = c[1]
+        return c
+    n = 0
+    for cls in om.op_classes(F):
+        if not om.own_eval(F, cls) or cls == om.ROOT or cls in cond_classes:
+            continue
+        q = cls + '.eval'
+        selft = ('param', om.self_param(F, q))
+        specs = om.op_specs(F, cls)
+        bad = {}
+        for op in (specs or [None]):
+            if op in ('and', 'or', 'not'):
+                continue
+            for p in (om.eval_paths(F, cls, op) if op is not None else om.eval_paths(F, cls)):
+                for e in p.events:
+                    if e.kind != 'assume':
+                        continue
+                    c = strip_not(e.cond)
+                    if isinstance(c, tuple) and c[:1] == ('call',) and isinstance(c[2], tuple) and c[2][:1] == ('attr',) and c[2][2] == om.EVAL \
+                            and om.base_field(c[2][1], selft) is not None:
+                        bad['`%s`' % e.text()] = (op, e.line)
+        n += 1
+        chk.require(not bad, R12, q, F.func(q).where,
+                    '; '.join('%s%s branches on the truth value of a child\'s result: 0, "", [] and {} are taken for a missing value' % (
+                        k, ' [op=%r]' % v[0] if v[0] else '') for k, v in sorted(bad.items())[:3]) or 'no truth test on the result of a child evaluation')
+    tab = functab.table(F)
+    for key in sorted(tab):
+        ent = tab[key]
+        if ent.kind != 'fn':
+            continue
+        fi = ent.funcinfo(F)
+        if fi is None or not isinstance(fi.node, ast.FunctionDef):
+            continue
+        ann = {}
+        a_ = fi.node.args
+        for x in a_.posonlyargs + a_.args + a_.kwonlyargs:
+            txt = ast.unparse(x.annotation) if x.annotation is not None else ''
+            ann[x.arg] = bool(txt) and 'Any' not in txt and any(t_ in txt for t_ in _TYPED)
+        var = a_.vararg.arg if a_.vararg else None
+        bad = {}
+        try:
+            paths = SymExec(F, fi).run()
+        except AnalysisError:
+            continue
+        for p in paths:
+            for e in p.events:
+                if e.kind == 'assume':
+                    c = strip_not(e.cond)
+                    if isinstance(c, tuple) and c[:1] == ('param',) and isinstance(c[1], str):
+                        nm = c[1].lstrip('*')
+                        if nm == var or ann.get(nm, False) or nm not in ann:
+                            continue
+                        bad['`%s`' % e.text()] = 'the argument %s (no type that would make truthiness an emptiness test)' % nm
+                    elif isinstance(c, tuple) and c[:1] == ('sub',) and isinstance(c[1], tuple) and c[1][:1] == ('param',) and var and c[1][1].lstrip('*') == var:
+                        bad['`%s`' % e.text()] = 'an element of *%s' % var
+                elif e.kind == 'call':
+                    f = freeze(e.func)
+                    if f == ('ref', 'builtin', 'filter') and e.args and freeze(e.args[0]) == ('const', None) and len(e.args) == 2 \
+                            and any(om.mentions(freeze(e.args[1]), ('param', x_)) for x_ in list(ann) + (['*' + var] if var else [])):
+                        bad['`%s`' % e.text()] = 'every element (filter(None, ...) drops 0, "", [] and {} along with None)'
+        n += 1
+        chk.require(not bad, R12, ent.label, fi.where,
+                    '; '.join('%s decides by the truth value of %s' % kv for kv in sorted(bad.items())[:3]) or 'no truth test on an argument of unknown type')
+
+
 def node_transparency(chk: Check, R7: str, kinds=('call', 'name')) -> None:
     """A call node returns what the callee returned, a name node what the scoped names hold."""
     F = chk.facts
@@ -261,6 +353,7 @@ def _r7(chk: Check) -> None:
     from .c14 import key_cast_agreement
     lambda_frames(chk, R10)
     key_cast_agreement(chk, R11)
+    _r12_truth(chk)
     R7 = chk.rule('C07.R7', 'value transparency: a call node returns exactly what the callee returned, a name node exactly the '
                             'value found in the scoped names (no conversion, copy or normalisation on the way out)', floor=2)
     chk.decided += ['results of calls and name lookups are handed on unchanged (R7)']
